@@ -37,7 +37,7 @@ func init() {
 		Prop:  "C01",
 		Level: "exploration",
 		Rule: "differential simulation against an executable sequential specification with a full read-back (GetRaw, Exists, GetExpiry, GetWithXattrs, GetXattrs, virtual xattrs) before and after every operation; " +
-			"cases = bounded-exhaustive (pre-state setup x op variant x follow-up) sequences plus PRNG-drawn long histories; plus reads through the DataStore a second handle still holds for a collection that was dropped (they must report every key missing, whatever was created since); a cell is distinct if (op variant, pre-state class, outcome class, bucket type) is new; Incr with amount 0 and SetRaw with PreserveExpiry are in the catalogue",
+			"cases = bounded-exhaustive (pre-state setup x op variant x follow-up) sequences plus PRNG-drawn long histories; plus reads through the DataStore a second handle still holds for a collection that was dropped (they must report every key missing, whatever was created since); a cell is distinct if (op variant, pre-state class, outcome class, bucket type) is new; Incr with amount 0 and SetRaw with PreserveExpiry are in the catalogue; (stale DataStore) CreateDataStore for collections that exist must leave their documents alone; counters around 2^63",
 		Assumptions: []string{"bodies up to a few hundred bytes, plus a profile with 64 KiB - 1 MiB bodies and a MaxDocSize boundary profile", "keys from a small pool plus hostile keys", "expiries far in the future (timer never fires)", "error messages, log output not compared"},
 		Parts: []sup.Part{
 			exhaustivePart("exhaustive", base),
